@@ -863,6 +863,14 @@ CHECKS['C01']['note'] = CHECKS['C01']['note'].replace(
     'over all 32 descriptor classes after an AST vocabulary check (evidence: lincomb_translator = source=ast|live); anything outside '
     'the vocabularies is a broken obligation.')
 
+CHECKS['C02']['note'] = CHECKS['C02']['note'].replace('67 expected model/code branches', '75 expected model/code branches') + (
+    ' The correspondence includes a history stream: spaces sharing one grid, partition or weighting object, queried interleaved and '
+    'compared with freshly built equal spaces.')
+CHECKS['C18']['note'] = CHECKS['C18']['note'] + (
+    ' tools/extract/recipgrid.py: the case tables come from the AST of reciprocal_grid and dft_postprocess_data, or, when the source '
+    'has another syntactic form, are fitted behaviourally on the live functions (n = 3..9) and verified on a second set of lengths; '
+    'the source (ast or live) is recorded in the evidence, and extraction fails closed otherwise.')
+
 NOT_YET = {}
 
 
